@@ -1,6 +1,8 @@
 import RichModel.Lemmas.LiveMain
 import RichModel.Lemmas.LiveCtl
 import RichModel.Lemmas.LiveText
+import RichModel.Lemmas.TermStyle
+import RichModel.Lemmas.LiveCrop
 /-!
 # C10 — Live and progress displays leave a correct screen after any history
 
@@ -353,6 +355,100 @@ theorem transient_frame_filling_screen_leaves_remnant :
     printed cfg .crop [['a'], ['b']] [.start, .refresh, .stop] = [] ∧
     lastFrame cfg .crop [['a'], ['b']] [.start, .refresh, .stop] = [] ∧
     wf cfg .crop [['a'], ['b']] [.start, .refresh, .stop] = false := by
+  decide
+
+
+/-! ## Styled output (deepening 4): styles are zero-width for the cursor
+
+`console.print(..., style=…)`, styled renderables, `console.rule`, highlighted logs … interleave SGR / OSC 8
+sequences with the text, also in the middle of a line.  `plainOps` (`Model/TermStyle.lean`) is the style-free normal
+form of a stream — styles dropped, adjacent text runs merged — the form in which the correspondence of
+harness/props/c10.py compares what real rich writes with what the model emits (`plain_ops` of harness/term.py;
+`term_plain` ties the two normal forms).  The screen theorems therefore hold for EVERY stream with the normal form
+of the model's emission, whatever styles it carries and wherever they split the text. -/
+
+/-- Styles, wherever they are in the stream, change nothing on the screen (rows, cursor, cursor visibility). -/
+theorem styles_are_zero_width (H : Nat) (s : Screen) (ops : List TermOp) :
+    replay H s (plainOps ops) = replay H s ops :=
+  replay_plainOps H ops s
+
+/-- **live_screen_styled.**  `live_screen` for styled output: any stream `out` whose style-free normal form is that of
+the model's emission — e.g. what `print(..., style="red")` under the display really writes — leaves exactly the
+printed lines, then the last frame, then blank rows. -/
+theorem live_screen_styled (cfg : Cfg) (ov : Live.Overflow) (r0 : Frame) (h : List Op)
+    (hfix : cfg.bareBypass = false) (hflush : cfg.flushFix = true) (hwf : wf cfg ov r0 h = true)
+    (out : List TermOp) (hout : plainOps out = plainOps (emit cfg ov r0 h)) :
+    ∃ k, (replay cfg.height Screen.init out).rows =
+      (printed cfg ov r0 h ++ lastFrame cfg ov r0 h).map (cells cfg.cw) ++ List.replicate k [] := by
+  rw [replay_eq_of_plainOps_eq _ _ _ _ hout]
+  exact live_screen cfg ov r0 h hfix hflush hwf
+
+/-- **live_screen_sessions_styled.**  The same for any number of sessions. -/
+theorem live_screen_sessions_styled (cfg : Cfg) (ov : Live.Overflow) (r0 : Frame) (h : List Op)
+    (hfix : cfg.bareBypass = false) (hflush : cfg.flushFix = true) (hreset : cfg.resetShape = true)
+    (hwf : wfM cfg ov r0 h = true)
+    (out : List TermOp) (hout : plainOps out = plainOps (emit cfg ov r0 h)) :
+    ∃ k, (replay cfg.height Screen.init out).rows =
+      (finished cfg ov r0 h ++ liveFrameOf cfg ov r0 h).map (cells cfg.cw) ++ List.replicate k [] := by
+  rw [replay_eq_of_plainOps_eq _ _ _ _ hout]
+  exact live_screen_sessions cfg ov r0 h hfix hflush hreset hwf
+
+/-- …and the cursor is shown again after `stop` whatever styles the stream carries. -/
+theorem cursor_visible_after_stop_styled (cfg : Cfg) (ov : Live.Overflow) (r0 : Frame) (pre : List Op)
+    (hfix : cfg.bareBypass = false) (hflush : cfg.flushFix = true) (hwf : wf cfg ov r0 (pre ++ [.stop]) = true)
+    (hstarted : (run cfg noFault (initSt ov r0) pre).1.started = true)
+    (out : List TermOp) (hout : plainOps out = plainOps (emit cfg ov r0 (pre ++ [.stop]))) :
+    (replay cfg.height Screen.init out).visible = true := by
+  rw [replay_eq_of_plainOps_eq _ _ _ _ hout]
+  exact cursor_visible_after_stop cfg ov r0 pre hfix hflush hwf hstarted
+
+/-- non-vacuity: `start; print "hi" (style=red, the style splitting the line); stop` as a real terminal stream with
+SGR sequences around and inside the text runs -/
+example :
+    let cfg : Cfg := { cfgLive with bareBypass := false, flushFix := true }
+    let h : List Op := [.start, .print [['h', 'i']], .stop]
+    let out : List TermOp := [.hideCursor, .sgr [31], .text ['h'], .sgr [1, 31], .text ['i'], .sgr [0], .lf, .sgr [31], .text ['F'],
+      .sgr [0], .cr, .el2, .osc8 ['u'], .text ['F'], .osc8 [], .lf, .showCursor]
+    wf cfg .ellipsis [['F']] h = true ∧ plainOps out = plainOps (emit cfg .ellipsis [['F']] h) ∧
+      (replay 6 Screen.init out).rows = [['h', 'i'], ['F'], []] := by
+  decide
+
+
+/-! ## `vertical_overflow` "crop" / "ellipsis": no hypothesis about frame heights (deepening 4)
+
+`wf` asks that every displayed frame fits the screen.  For a Live / Status whose `vertical_overflow` is `"crop"` or
+`"ellipsis"` the code cuts every frame to the screen height, and only `stop` changes the mode (`step_overflow`), so that
+clause — including the redraws of the two flushes of `stop` (`flushFits`) — holds by itself: `wfOpsNoFit` is `wfOps`
+with all of it removed (operations of the kind, nothing raises, `stop` last, one free row for a transient `stop`), and
+the renderable may be arbitrarily taller than the screen at every moment of the history.  (`"visible"` and Progress,
+which has no overflow handling, keep the hypothesis: rich documents such frames as not clearable.) -/
+
+/-- **live_screen_crop.**  `live_screen` for `crop` / `ellipsis` without any hypothesis on the height of the frames. -/
+theorem live_screen_crop (cfg : Cfg) (ov : Live.Overflow) (r0 : Frame) (h : List Op)
+    (hfix : cfg.bareBypass = false) (hflush : cfg.flushFix = true) (hplain : cfg.plain = true) (hH : 1 ≤ cfg.height)
+    (hk : cfg.kind ≠ .progress) (hov : ov ≠ .visible) (hwf : wfOpsNoFit cfg (initSt ov r0) h = true) :
+    ∃ k, (replay cfg.height Screen.init (emit cfg ov r0 h)).rows =
+      (printed cfg ov r0 h ++ lastFrame cfg ov r0 h).map (cells cfg.cw) ++ List.replicate k [] := by
+  apply live_screen cfg ov r0 h hfix hflush
+  simp only [wf, Bool.and_eq_true, decide_eq_true_eq]
+  exact ⟨⟨hplain, hH⟩, wfOps_of_crop cfg hk hH h _ hov hwf⟩
+
+/-- …and the cursor stays inside the live region, whatever the height of the renderable. -/
+theorem cursor_never_above_region_crop (cfg : Cfg) (ov : Live.Overflow) (r0 : Frame) (h : List Op)
+    (hfix : cfg.bareBypass = false) (hflush : cfg.flushFix = true) (hplain : cfg.plain = true) (hH : 1 ≤ cfg.height)
+    (hk : cfg.kind ≠ .progress) (hov : ov ≠ .visible) (hwf : wfOpsNoFit cfg (initSt ov r0) h = true) :
+    AboveRegion cfg (initSt ov r0) {} Screen.init h := by
+  apply cursor_never_above_region cfg ov r0 h hfix hflush
+  simp only [wf, Bool.and_eq_true, decide_eq_true_eq]
+  exact ⟨⟨hplain, hH⟩, wfOps_of_crop cfg hk hH h _ hov hwf⟩
+
+/-- non-vacuity: a two-row screen, frames of five and four lines (crop), prints in between, pending text at `stop` -/
+example :
+    let cfg : Cfg := { cfgLive with bareBypass := false, flushFix := true, height := 2 }
+    let h : List Op := [.start, .update [['1'], ['2'], ['3'], ['4'], ['5']] true, .print [['p']], .write false [] ['t'],
+      .update [['a'], ['b'], ['c'], ['d']] true, .stop]
+    wfOpsNoFit cfg (initSt .crop [['x'], ['y'], ['z']]) h = true ∧
+      (replay 2 Screen.init (emit cfg .crop [['x'], ['y'], ['z']] h)).rows = [['p'], ['t'], ['a'], ['b'], ['c'], ['d'], []] := by
   decide
 
 /-! ## Non-vacuity: the hypotheses are met by concrete non-trivial histories -/
